@@ -53,7 +53,7 @@ type vGot struct {
 func vNewSwarm(told *int, wlM, wlV byte) *Swarm[vAddr] {
 	cfg := newDefaultConfig[vAddr]()
 	cfg.fingerprinter = vFP
-	cfg.whitelist = func(a Addr[vAddr]) bool { return a.ID[0]&wlM == wlV }
+	cfg.whitelist = func(a Addr[vAddr]) bool { return vWL(a, wlM, wlV) }
 	s := &Swarm[vAddr]{
 		inner:     vInner{told: told},
 		config:    cfg,
@@ -65,3 +65,6 @@ func vNewSwarm(told *int, wlM, wlV byte) *Swarm[vAddr] {
 	s.localID = vFP(&s.publicKey)
 	return s
 }
+
+// vWL is the harness whitelist family: it depends on the identity AND on the transport address.
+func vWL(a Addr[vAddr], m, v byte) bool { return (a.ID[0]^(byte(a.Addr)*0x55))&m == v }
